@@ -18,6 +18,14 @@ pub(crate) fn format_stub(_args: std::fmt::Arguments<'_>) -> String {
     String::from("formatted")
 }
 
+/// Element-wise equivalent of
+/// `out.append(&mut v.into_iter().map(|r| ServerRequest::new(r, id)).collect())` (see the overlay).
+pub(crate) fn move_requests(v: Vec<Request>, out: &mut Vec<ServerRequest>, id: u64) {
+    for r in v {
+        out.push(ServerRequest::new(r, id));
+    }
+}
+
 pub(crate) fn full_message() -> &'static [u8] {
     // the documented refusal, written out independently of server.rs
     b"HTTP/1.1 503\r\nServer: Firecracker API\r\nConnection: close\r\nContent-Length: 40\r\n\r\n{ \"error\": \"Too many open connections\" }"
@@ -181,11 +189,11 @@ fn shape_for(kind: usize) -> usize {
 // ---------------------------------------------------------------------------------------------
 // S1: one requests() call, events on client connections only
 // ---------------------------------------------------------------------------------------------
-// @harness props=C07,C08,C09,C10,C13 props_thorough=C11,C03 tiers=quick:K=0,N=0,M=11|K=3,N=0,M=11|K=4,N=0,M=11|K=5,N=0,M=11|K=14,N=0,M=11|K=1,N=4,M=11|K=6,N=2,M=11|K=7,N=2,M=11|K=8,N=2,M=11|K=9,N=3,M=11|K=6,N=5,M=11|K=10,N=0,M=11|K=10,N=3,M=11|K=10,N=5,M=11;thorough:K=0,N=0,M=11|K=3,N=0,M=11|K=4,N=0,M=11|K=5,N=0,M=11|K=14,N=0,M=11|K=1,N=4,M=11|K=6,N=2,M=11|K=7,N=2,M=11|K=8,N=2,M=11|K=9,N=3,M=11|K=6,N=5,M=11|K=10,N=0,M=11|K=10,N=3,M=11|K=10,N=5,M=11|K=0,N=4,M=11|K=3,N=4,M=11|K=4,N=4,M=11|K=5,N=4,M=11|K=14,N=4,M=11|K=7,N=3,M=11|K=7,N=5,M=11|K=8,N=3,M=11|K=8,N=5,M=11|K=9,N=2,M=11|K=9,N=5,M=11|K=10,N=1,M=11|K=10,N=2,M=11|K=10,N=4,M=11 unwind=6 cap=600 mem=2 covers=2
+// @harness props=C07,C08,C09,C10,C13 props_thorough=C11,C03 tiers=quick:K=0,N=0,M=11|K=1,N=0,M=11,MEM=5|K=13,N=0,M=11,MEM=5|K=3,N=0,M=11|K=4,N=0,M=11|K=5,N=0,M=11|K=14,N=0,M=11|K=1,N=4,M=11|K=6,N=2,M=11|K=7,N=2,M=11|K=8,N=2,M=11|K=9,N=3,M=11|K=6,N=5,M=11|K=10,N=0,M=11|K=10,N=3,M=11|K=10,N=5,M=11;thorough:K=0,N=0,M=11|K=1,N=0,M=11,MEM=5|K=13,N=0,M=11,MEM=5|K=3,N=0,M=11|K=4,N=0,M=11|K=5,N=0,M=11|K=14,N=0,M=11|K=1,N=4,M=11|K=6,N=2,M=11|K=7,N=2,M=11|K=8,N=2,M=11|K=9,N=3,M=11|K=6,N=5,M=11|K=10,N=0,M=11|K=10,N=3,M=11|K=10,N=5,M=11|K=2,N=0,M=11,MEM=5|K=0,N=4,M=11|K=3,N=4,M=11|K=4,N=4,M=11|K=5,N=4,M=11|K=14,N=4,M=11|K=13,N=4,M=11|K=6,N=3,M=11|K=7,N=3,M=11|K=7,N=5,M=11|K=8,N=3,M=11|K=8,N=5,M=11|K=9,N=2,M=11|K=9,N=5,M=11|K=10,N=2,M=11|K=10,N=4,M=11 unwind=6 cap=600 mem=2 covers=2
 // @fn HttpServer::requests ClientConnection::read ClientConnection::write ClientConnection::is_done ClientConnection::clear_write_buffer HttpServer::epoll_mod HttpServer::epoll_del
 // @stubs std::fmt::format
 // @claim one polling step from any state satisfying the server invariant, with admissible events on the client connections: the call returns normally (never an error); afterwards every remaining connection satisfies the invariant again (pending output <=> AwaitingOutgoing with OUT interest; AwaitingIncoming => IN interest; no failed epoll_ctl); a connection is removed (deregistered and closed once) iff it is Closed with nothing pending and no request in flight; requests are yielded only with the id of the connection they were read from, as many as were parsed, and the in-flight count grows by exactly that number; a parse error yields nothing, leaves the count alone and queues exactly one 400; a queued 100-continue switches the connection to writing; at most one read and one write per connection and step, and never a write on a closed connection; the event buffer holds MAX_CONNECTIONS+2 entries
-// @bounds NOT discharged (CBMC's array post-processing needs > 36 GB): reads that yield requests to the application (kinds 1, 2, 13 on an open connection), a write that has to dequeue a response first (kinds 6..8 on shape 1), two connections in one query - the accounting of those reads is decided on ClientConnection by cc_read instead; connection 0 in invariant shape N (0 AwaitingIncoming, 1..3 AwaitingOutgoing with a queued / half-sent / both responses, 4 Closed registered for IN, 5 Closed registered for OUT) with symbolic in-flight count 0..3 and limit; optional connection 1 (M != 11); event kind on connection 0 = K, on connection 1 = M (0..5 readable with read outcome k: nothing/1/2 requests/100-continue/parse error/EOF, 13/14 = one request then 100-continue / parse error in the same read; 6..9 writable with write answer full/short/EINTR/failure; 10 hang-up or error with arbitrary bits; 11 none), order of the two events symbolic; try_read / try_write replaced by contract models; HashMap replaced by the 3-slot map; epoll/sockets replaced by recording stand-ins
+// @bounds NOT discharged (CBMC runs out of memory): shape 1 (a queued response and no half-sent one: the dequeue path of a write is decided on the connection by c06_history instead) and two connections in one query; `parsed_requests.append(&mut ..collect())` is replaced by its element-wise equivalent in the overlay; connection 0 in invariant shape N (0 AwaitingIncoming, 1..3 AwaitingOutgoing with a queued / half-sent / both responses, 4 Closed registered for IN, 5 Closed registered for OUT) with symbolic in-flight count 0..3 and limit; optional connection 1 (M != 11); event kind on connection 0 = K, on connection 1 = M (0..5 readable with read outcome k: nothing/1/2 requests/100-continue/parse error/EOF, 13/14 = one request then 100-continue / parse error in the same read; 6..9 writable with write answer full/short/EINTR/failure; 10 hang-up or error with arbitrary bits; 11 none), order of the two events symbolic; try_read / try_write replaced by contract models; HashMap replaced by the 3-slot map; epoll/sockets replaced by recording stand-ins
 #[kani::proof]
 #[kani::stub(std::fmt::format, format_stub)]
 fn srv_requests_clients() {
@@ -380,7 +388,7 @@ fn srv_accept() {
 // ---------------------------------------------------------------------------------------------
 // S3: kill switch (C18)
 // ---------------------------------------------------------------------------------------------
-// @harness props=C18 props_thorough=C03 tiers=quick:K=11,N=0,M=1|K=4,N=0,M=2|K=14,N=0,M=2|K=3,N=0,M=1|K=10,N=0,M=2|K=12,N=0,M=2|K=12,N=0,M=1|K=4,N=0,M=0|K=9,N=3,M=2;thorough:K=11,N=0,M=1|K=11,N=0,M=0|K=0,N=0,M=2|K=3,N=0,M=2|K=3,N=0,M=1|K=4,N=0,M=2|K=5,N=0,M=2|K=14,N=0,M=2|K=14,N=0,M=1|K=7,N=2,M=2|K=9,N=3,M=2|K=10,N=0,M=2|K=10,N=3,M=1|K=12,N=0,M=2|K=12,N=0,M=1|K=12,N=0,M=0|K=6,N=5,M=2|K=4,N=0,M=0 unwind=6 cap=600 mem=2 covers=1
+// @harness props=C18 props_thorough=C03 tiers=quick:K=11,N=0,M=1|K=4,N=0,M=2|K=14,N=0,M=2|K=13,N=0,M=2,MEM=5|K=1,N=0,M=2,MEM=5|K=3,N=0,M=1|K=10,N=0,M=2|K=12,N=0,M=2|K=12,N=0,M=1|K=4,N=0,M=0|K=9,N=3,M=2;thorough:K=11,N=0,M=1|K=4,N=0,M=2|K=14,N=0,M=2|K=13,N=0,M=2,MEM=5|K=1,N=0,M=2,MEM=5|K=3,N=0,M=1|K=10,N=0,M=2|K=12,N=0,M=2|K=12,N=0,M=1|K=4,N=0,M=0|K=9,N=3,M=2|K=11,N=0,M=0|K=0,N=0,M=2|K=3,N=0,M=2|K=5,N=0,M=2|K=14,N=0,M=1|K=1,N=0,M=1|K=13,N=0,M=1|K=7,N=2,M=2|K=10,N=3,M=1|K=12,N=0,M=0|K=6,N=5,M=2|K=2,N=0,M=2,MEM=5 unwind=6 cap=600 mem=2 covers=1
 // @fn HttpServer::requests HttpServer::add_kill_switch
 // @stubs std::fmt::format
 // @claim a batch that contains the kill-switch event makes the polling function return the shutdown indication - wherever the event stands in the batch and whatever the other event is (readable connection that completes requests, writable, hang-up, listener with a client waiting) - and the event buffer offered to epoll_wait has room for the listener, the kill switch and every connection; without a kill switch registered, or without its event, no shutdown is reported
